@@ -590,6 +590,14 @@ class C02(AstKindProp):
         return AstKindProp.canon_model(self, layer, op, ans)
 
 
+def _canon_types_ir(j):
+    j = copy.deepcopy(j)
+    for _, p in j["params"] + ([["return_type", j["returns"]]] if j.get("returns") else []):
+        if p.get("typ"):
+            p["typ"] = _canon_type(p["typ"])
+    return j
+
+
 def _canon_type(t):
     if t is None:
         return None
@@ -650,6 +658,16 @@ class C03(AstKindProp):
             except Exception as e:
                 impl = {"raises": exc_kind(e)}
             res.append(("func_attr", {"op": "func_attr", "param": p}, impl))
+        # the WHOLE kind at statement level (FuncKind.lean: emit.function -> text -> parse.function, every statement
+        # modelled) against the real round trip of this very case
+        if not c["opts"].get("word_wrap") and not c["opts"].get("emitted_before"):
+            try:
+                _, _, back = self.conv(c)
+                implk = {"ok": irutil.canon_ir(_canon_types_ir(irutil.ir_to_json(back)))}
+            except Exception as e:
+                implk = {"raises": exc_kind(e)}
+            res.append(("func_kind", {"op": "func_kind", "ir": c["ir"], "emit": bool(c["opts"].get("emit_default_doc", True)), "inline": bool(c["opts"].get("inline_types")),
+                                      "indent_level": int(c["opts"].get("indent_level", 1)), "emit_separating_tab": True}, implk))  # fmt: skip
         # the docstring the function / class emitters build (ToDocstring.lean), on the whole description, with the options
         # of this case and one more combination drawn from the case itself
         from doctrans import emitter_utils
@@ -682,6 +700,8 @@ class C03(AstKindProp):
             return {"ok": {"typ": _canon_type(o.get("typ")), "default": canon_val(o.get("default"))}}
         if layer == "to_docstring":
             return ans
+        if layer == "func_kind":
+            return {"ok": irutil.canon_ir(_canon_types_ir(ans["ok"]))} if "ok" in ans else ans
         if layer == "func_doc_rt":
             return {"ok": irutil.canon_ir(ans["ok"])} if "ok" in ans else ans
         return AstKindProp.canon_model(self, layer, op, ans)
